@@ -23,10 +23,17 @@ import (
 )
 
 const (
-	verifDir = "/verif"
-	repoDir  = "/repo"
-	module   = "github.com/github/git-sizer"
+	repoDir = "/repo"
+	module  = "github.com/github/git-sizer"
 )
+
+// verifDir is /verif unless VERIF_DIR points at a snapshot of it (vp run).
+var verifDir = func() string {
+	if d := os.Getenv("VERIF_DIR"); d != "" {
+		return d
+	}
+	return "/verif"
+}()
 
 type TierCfg struct {
 	Params   map[string]int64 `json:"params"`
